@@ -23,7 +23,7 @@ func (k msgServer) Cancel(goCtx context.Context, msg *types.MsgCancel) (*types.M
 	isCreator := false
 	if order.Creator == msg.Creator {
 		isCreator = true
-	} else {
+	} else if msg.Provider == order.Provider {
 		node, found := k.node.GetNode(ctx, msg.Provider)
 		if found {
 			for _, address := range node.TxAddresses {
